@@ -118,12 +118,14 @@ Print Assumptions C17_critical_section_is_append.
    built over a directory left by any history with failed rolls: the numbers of
    rotations requested per append are (1 or 0, 0, 0, ...) — one request, in the
    first append only, iff the build-time file holds >= min_size bytes, whether
-   or not that rotation succeeds; a failed one is never retried. *)
+   or not that rotation succeeds (the roller refusing before it touches anything,
+   or rotating and then reporting failure); a failed one is never retried. *)
 Theorem C17_requests_once_failing_rolls :
   forall m rl s a ops,
     let c := {| trig := TStartup m; roll_by := rl |} in
     (exists pre ops0, s = fst (xrun_ops c ops0 (raw pre))) ->
-    forallb (fun o => match o with XOp (Append _) => true | XAppendFail _ => true | _ => false end) ops = true ->
+    forallb (fun o => match o with XOp (Append _) => true | XAppendFail _ => true | XAppendFailAfter _ => true
+                              | _ => false end) ops = true ->
     let s0 := fst (build a (files s) (consults s)) in
     let big := m <=? disk_len (files s0) in
     map (fun p => rolls (fst p)) (snd (xrun_ops c ops s0))
